@@ -275,6 +275,20 @@ func init() {
 		Assumptions: []string{"goroutines switch only at synchronisation operations", "sendPkt replaced by a recorder; the upstream socket is a model that returns the given datagrams then times out"},
 		QuickBudget: 10 * time.Minute, ThoroughBudget: 60 * time.Minute,
 	}
+	checks["C05"] = &CheckDef{
+		Pkgs: []string{"./control"}, Splice: true,
+		Harness: []string{"control:Verif_C05_relay", "control:Verif_C05_relay_error"},
+		MaxIter: 2000,
+		Level:   "other",
+		LevelText: "The real relay (RelayTCPContextWithRecords -> relayCore.run with its two direction goroutines, context watcher and forceClose, defaultRelayCopyEngine.Copy, tryRelayGatherWrite with TakeRelaySegments / TakeRelayPrefix / CopyRelayRemainder, relayCopyLoop / relayCopyDirect) runs between two model sockets under the engine's schedule exploration (every interleaving of client, upstream, the two copy directions and the watcher at blocking operations; schedules are symbolic inputs). The client side is plain, or wrapped the way handleConn wraps it: prefixedConn with read-ahead bytes, bufioConn after a DNS-detection Peek, or ConnSniffer over a prefixedConn after a failed sniff. Client and upstream each send two segments of symbolic bytes and shut down their sending side. Obligations: each side receives exactly the other's byte stream (read-ahead included, no loss, duplication or reordering); each end of stream is passed on as exactly one write-shutdown and nothing is written after it; the relay finishes without error. A second harness resets the upstream at either write: the relay does not hang, reports the error and closes both connections. A genuine defect was found with this check and repaired (see known_findings.json): the wrappers hid CloseWrite, so the upstream's end of stream reached a client behind a sniffing wrapper only after the 10 s half-close timeout.",
+		LevelNote: "Partial claim. The splice(2) and writev fast paths need real *net.TCPConn file descriptors and are not executed (model sockets take the buffered-loop and gather paths); handleConn's wiring (DNS fast path, prefetch timing, routing, dial) is not executed; the detection-window timing clause is covered for the sniffer only (C06). Trusted: go/ssa, executor and thread model (switches at blocking operations only in this check), z3.",
+		Technique: techniqueText,
+		Explanation: "Bounded schedule exploration of the TCP relay core over model sockets with symbolic payloads.",
+		Bounds: map[string]string{"quick": "2 segments of 2-3 symbolic bytes per direction, 0/4 read-ahead bytes, 4 client-side wrapper stacks, all interleavings at blocking operations (no preemption inside a copy step); error harness: failure at the 1st or 2nd upstream write", "thorough": "same"},
+		Outside: []string{"splice / writev fast paths on real TCP sockets", "handleConn wiring, DNS-over-TCP fast path, prefetch timing", "half-close grace period expiry (the 10 s timer is armed but time does not advance in the model)", "MPTCP, proxy-protocol outbound connections"},
+		Assumptions: []string{"model socket: segments arrive on a channel, a read deadline of time.Unix(1,0) or Close unblocks a pending read with a timeout error", "the clock is arbitrary but later than the epoch sentinel the relay uses as 'deadline in the past'"},
+		QuickBudget: 10 * time.Minute, ThoroughBudget: 60 * time.Minute,
+	}
 	checks["ZZ"] = &CheckDef{
 		Pkgs: []string{"./zz_selftest"}, Hidden: true,
 		Harness: []string{"zz_selftest:Verif_Self_lost_update", "zz_selftest:Verif_Self_cas_ok"},
